@@ -163,6 +163,18 @@ def c07_cases(rng, tier):
     nums += [str(v) for v in (I64MAX, I64MAX + 1, I64MIN, I64MIN - 1, 10**18, 10**19, -10**19, 2**64, 2**64 + 5)]
     nums += ["+" + str(I64MAX), "+" + str(I64MAX + 1), "-0", "+0", "-", "+", "", "00000000000000000000001", "-00000000000000000009223372036854775808"]
     nums += [str(I64MAX)[:-1] + c for c in "6789"] + [str(I64MIN)[:-1] + c for c in "789"]
+    # random long numbers (19..24 digits): wrap-around values that happen to land inside i64 must still be rejected
+    for _ in range(1500 if tier == "quick" else 20000):
+        d = rng.randint(19, 24)
+        num = str(rng.randint(10 ** (d - 1), 10 ** d - 1))
+        if rng.random() < 0.3:
+            num = "-" + num
+        cases.append(("num", b":" + num.encode() + b"\r\n"))
+        if rng.random() < 0.2:
+            cases.append(("len", b"$" + num.encode() + b"\r\nhello\r\n"))
+    for k in range(1, 40):
+        cases.append(("num", b":" + str(2**64 * k + rng.randint(0, 9)).encode() + b"\r\n"))
+        cases.append(("num", b":-" + str(2**64 * k + rng.randint(0, 9)).encode() + b"\r\n"))
     offs = list(range(0, 49)) if tier == "thorough" else [0, 1, 5, 9, 13, 14, 15, 16, 17, 18, 19, 20, 21, 30, 48]
     for num in nums:
         for pad in offs:
@@ -221,10 +233,13 @@ def run_c07(rep, tier, seed):
     rep.cov["evaluations"] += len(lines)
     nviol = 0
 
+    kind_count = {}
+
     def report(kind, b, what, exp, got):
         nonlocal nviol
         nviol += 1
-        if nviol > 5:
+        kind_count[kind] = kind_count.get(kind, 0) + 1
+        if kind_count[kind] > (4 if kind == "oracle" else 2):
             return
 
         def fails(cands):
@@ -266,7 +281,24 @@ def run_c07(rep, tier, seed):
         if ic != mc or ip != mp:
             report("correspondence", b, "model and implementation disagree on check/parse", f"check: {mc}; parse: {mp}",
                    f"check: {ic}; parse: {ip}")
-    # integer exactness oracle (independent bignum parse) on the plain `:num\r\n` cases
+    # integer exactness oracle (independent bignum parse): EVERY input whose first frame is `:<sign?><digits>\r...`
+    import re as _re
+    for i, (tag, b) in enumerate(uniq):
+        if 2 * i + 1 >= len(impl):
+            break
+        mnum = _re.match(rb":([+-]?[0-9]+)\r", b)
+        ip = impl[2 * i + 1]
+        if mnum and ip.startswith("ok ") and " I:" in ip:
+            v = int(mnum.group(1))
+            got = int(ip.split(" I:")[1])
+            if got != v or not (I64MIN <= v <= I64MAX):
+                report("oracle", b, "an accepted integer does not have the value written (or is outside i64)", f"I:{v}" if I64MIN <= v <= I64MAX else "err notinteger", ip)
+        mlen = _re.match(rb"\$([+]?[0-9]+)\r\n", b)
+        if mlen and ip.startswith("ok ") and " B:" in ip:
+            n = int(mlen.group(1))
+            blen = len(ip.split(" B:")[1]) // 2
+            if blen != n:
+                report("oracle", b, "a bulk string was accepted with a length different from the one written", f"length {n}", ip[:80])
     for i, (tag, b) in enumerate(uniq):
         if tag == "num" and b.startswith(b":") and 2 * i + 1 < len(impl):
             txt = b[1:-2].decode()
